@@ -108,7 +108,16 @@ def links(sb, ws):
             os.symlink(target, os.path.join(ws, nm))
 
 
+def symlinked_parent(sb):
+    """the workspace lies inside the input and the input argument is spelled through a symlinked parent directory"""
+    os.makedirs(os.path.join(sb, 'real'), exist_ok=True)
+    shutil.copytree(os.path.join(sb, 'inputs', 'proj'), os.path.join(sb, 'real', 'proj'))
+    os.symlink(os.path.join(sb, 'real'), os.path.join(sb, 'link'))
+    return (os.path.join(sb, 'link', 'proj', 'out'), [os.path.join(sb, 'link', 'proj')], None, None)
+
+
 SCENARIOS = [
+    ('workspace inside the input, input spelled through a symlinked parent directory', symlinked_parent),
     ('disjoint-absolute + forced rerun over a workspace holding symlinks to the input and to outside paths',
      lambda sb: (os.path.join(sb, 'out'), [os.path.join(sb, 'inputs', 'proj')], None, links)),
     ('workspace inside the input directory', lambda sb: (os.path.join(sb, 'inputs', 'proj'), [os.path.join(sb, 'inputs', 'proj')], None, None)),
